@@ -171,6 +171,9 @@ func netIDs(fs []*rules.NetworkRule) string {
 }
 
 // eResults runs the real engines built from content on the batch and renders every result.
+// eListHook, when set, builds the in-memory list of eResultsOn.
+var eListHook func(content string) filterlist.RuleList
+
 func eResults(content string, web []*rules.Request, dns []*urlfilter.DNSRequest, hosts []string) (out []string) {
 	return eResultsOn("", content, web, dns, hosts)
 }
@@ -190,6 +193,10 @@ func eResultsOn(path, content string, web []*rules.Request, dns []*urlfilter.DNS
 	}()
 	mk := func() *filterlist.RuleStorage {
 		var l filterlist.RuleList = &filterlist.StringRuleList{ID: 1, RulesText: content}
+		if path == "" && eListHook != nil {
+			// family c12.inertchunk (op_m4_readers.go): the same content served by a reader with short reads
+			l = eListHook(content)
+		}
 		if path != "" {
 			fl, err := filterlist.NewFileRuleList(1, path, false)
 			if err != nil {
